@@ -853,7 +853,7 @@ def run_check(prop_id, tier="quick", seed=0, replay=None):
         rep = {"property": prop_id, "kind": "input", "case": v["case"], "expected": v["expected"],
                "observed": v["observed"], "property_oracle": v["oracle"], "seed": seed, "tier": tier,
                "correspondence": "implementation vs extracted Coq model on the same input",
-               "command": "./check %s --replay %s" % (prop_id, path)}
+               "command": "/verif/check %s --replay %s" % (prop_id, path)}
         json.dump(rep, open(path, "w"), indent=1)
         lines.append("VIOLATION property=%s replay=%s%s" % (prop_id, path, "" if found else " no-failing-input-found"))
     if obls:
@@ -864,7 +864,7 @@ def run_check(prop_id, tier="quick", seed=0, replay=None):
                "obligations_no_longer_checking": [v["obligation"] for v in obls],
                "detail": obls[0].get("detail"), "log_tail": obls[0].get("log_tail", ""),
                "failing_input": found_input["case"] if found_input else None,
-               "command": "./check %s --tier %s" % (prop_id, tier)}
+               "command": "/verif/check %s --tier %s" % (prop_id, tier)}
         json.dump(rep, open(path, "w"), indent=1)
         lines.append("VIOLATION property=%s replay=%s%s" % (prop_id, path, "" if found_input else " no-failing-input-found"))
 
